@@ -749,3 +749,8 @@ def finish(ctx):
   ctx.need("cmp:toleranced", 50)
   ctx.need("parcor:ParCorError-seen", 100)
   ctx.need("parcor:unit-k-reached-exactly", 100)
+
+
+# extension family (second round of seeded changes), see props/c11_x.py
+from props import c11_x as _x, ext as _ext
+_ext.install(globals(), _x)
